@@ -808,6 +808,53 @@ fn check_source(
     let _ = std::fs::remove_file(&r.path);
 }
 
+/// `info` reports the metadata given to `init-database`, for both back ends, in both output formats
+/// (oracle only: the dictionary compiled from a dump with the same flags is described identically)
+fn check_info(cli: &mut Cli, out: &mut Out, sqlite: bool) {
+    let meta = [("-n", "名 \"稱\"\\"), ("-c", "© 2024 someone"), ("-l", "LGPL-2.1-or-later"), ("-r", "9.8.7")];
+    let dir = cli.dir.clone();
+    let sp = dir.join("info.src");
+    let op = dir.join(if sqlite { "info.sqlite3" } else { "info.dat" });
+    std::fs::write(&sp, "測試 9 ㄘㄜˋ ㄕˋ\n").unwrap();
+    let _ = std::fs::remove_file(&op);
+    let mut c = cli.cmd();
+    c.arg("init-database").arg("-t").arg(if sqlite { "sqlite" } else { "trie" });
+    for (k, v) in meta {
+        c.arg(k).arg(v);
+    }
+    c.arg(&sp).arg(&op);
+    let o = c.output().expect("spawn chewing-cli");
+    let id = format!("db={}", if sqlite { "sqlite" } else { "trie" });
+    if !o.status.success() || !op.exists() {
+        out.oracle_fail("C20", "new", &format!("init-database_with_metadata_flags_fails {}", id));
+        return;
+    }
+    let mut c = cli.cmd();
+    c.arg("info").arg("-p").arg(&op);
+    let txt = String::from_utf8_lossy(&c.output().expect("spawn").stdout).to_string();
+    let want = [("Name", meta[0].1), ("Copyright", meta[1].1), ("License", meta[2].1), ("Version", meta[3].1), ("Software", "chewing-cli ")];
+    for (k, v) in want {
+        let ok = txt.lines().any(|l| {
+            l.split_once(':').map(|(a, b)| a.trim() == k && (if k == "Software" { b.trim().starts_with(v) } else { b.trim() == v })).unwrap_or(false)
+        });
+        if !ok {
+            out.oracle_fail("C20", "new", &format!("info_does_not_report_{}_{} {} got={}", k, hx(v), id, hx(&txt)));
+        }
+    }
+    let mut c = cli.cmd();
+    c.arg("info").arg("-j").arg("-p").arg(&op);
+    let js = String::from_utf8_lossy(&c.output().expect("spawn").stdout).to_string();
+    let esc = |s: &str| s.replace('\\', "\\\\").replace('"', "\\\"");
+    for (k, v) in [("name", meta[0].1), ("copyright", meta[1].1), ("license", meta[2].1), ("version", meta[3].1)] {
+        let needle = format!("\"{}\": \"{}\"", k, esc(v));
+        if !js.contains(&needle) {
+            out.oracle_fail("C20", "new", &format!("info_--json_does_not_report_{} {} got={}", k, id, hx(&js)));
+        }
+    }
+    let _ = std::fs::remove_file(&sp);
+    let _ = std::fs::remove_file(&op);
+}
+
 fn main() {
     let mut out = Out::new();
     let thorough = tier_is_thorough();
@@ -847,6 +894,9 @@ fn main() {
         v
     };
     let header = "詞(phrase),詞頻(freq),注音(bopomofo)";
+    for &sqlite in &dbs {
+        check_info(&mut cli, &mut out, sqlite);
+    }
 
     // fixed sources: the witnesses of the pre-survey and the repository's own small files
     let fixed: Vec<(bool, Vec<&str>)> = vec![
@@ -873,6 +923,32 @@ fn main() {
             for cfg in all_cfgs(false) {
                 check_source(&mut cli, &mut out, &mut st, cfg, &lines, false, true, true);
             }
+        }
+    }
+
+    // raw texts (correspondence only): line endings and the Unicode separators `char::is_whitespace` knows
+    let raw: Vec<(bool, &str)> = vec![
+        (false, "測 5 ㄘㄜˋ\r"),
+        (false, "\n\n"),
+        (false, "測試 5 ㄘㄜˋ ㄕˋ\r\r\n"),
+        (false, "策 1 ㄘㄜˋ\n\r\n冊 2 ㄘㄜˋ"),
+        (false, "測試\t5\tㄘㄜˋ\tㄕˋ\n"),
+        (false, "測試 5 ㄘㄜˋ\u{3000}ㄕˋ\u{85}# c\n測試 6 ㄘㄜˋ\u{2028}ㄕˋ\u{a0}\u{1680}\u{2003}\u{202f}\u{205f}\n"),
+        (false, "\u{feff}測 5 ㄘㄜˋ\n"),
+        (false, "測,試 5 ㄘㄜˋ ㄕˋ\n測\u{200b}試 5 ㄘㄜˋ ㄕˋ ㄕˋ\n"),
+        (false, "a\r 5 ㄘㄜˋ\n, 5 ㄘㄜˋ ㄘㄜˋ\n"),
+        (false, "\"\"\"測試\"\" \"5\" \"\" \"ㄘㄜˋ\" \"\"ㄕˋ \"#\" ㄕˋ\n"),
+        (false, "測試 +5 ㄘㄜˋ ㄕˋ\n測試 005 ㄘㄜ ㄕˋ\n測試 4294967295 ㄘㄜ ㄕ\n"),
+        (true, "h\n測試,5,ㄘㄜˋ,ㄕˋ\r\n測試 ,5,ㄘㄜˋ ㄕˋ\n,5,ㄘㄜˋ\n\"\",5,ㄘㄜˋ\n"),
+        (true, "測試,5,ㄘㄜˋ ㄕˋ"),
+        (true, "\n測試,,5,,ㄘㄜˋ　ㄕˋ,,# x\n"),
+    ];
+    for (csv, text) in &raw {
+        for cfg in all_cfgs(*csv) {
+            let r = cli.run(cfg, text);
+            record(&mut out, cfg, text, &r);
+            let _ = std::fs::remove_file(&r.path);
+            st.runs += 1;
         }
     }
 
